@@ -22,5 +22,8 @@ INVARIANTS
   D_C08
   D_C09
   D_C17_c
+  D_C17_r
+  D_C10
+  D_C10_split
 POSTCONDITION Accepted
 CHECK_DEADLOCK FALSE
